@@ -136,6 +136,21 @@ def closed_view(t):
     return _close(view(t))
 
 
+def prefix_view(t):
+    """(view of the receiver, length term) when t is the first `n` bytes of a byte sequence with n not a constant:
+    `&s[..n]`, `s.get(..n)` (unwrapped), `s.split_at(n).0`; None otherwise"""
+    x = t
+    while _is(x, *_SAME_BYTES) and x[2]:
+        x = x[2][0]
+    if isinstance(x, tuple) and len(x) == 2 and x[0] in ("payload", "try") and _is(x[1], "slice::get", "slice::get_mut"):
+        x = ("call", "core::ops::index::Index::index", x[1][2], 0)
+    if _is(x, "Index::index", "IndexMut::index_mut") and len(x[2]) == 2 and isinstance(x[2][1], tuple) and len(x[2][1]) == 4 and x[2][1][0] == "agg" and str(x[2][1][1]).rsplit("::", 1)[-1] == "RangeTo":
+        return (_close(view(x[2][0])), dict(x[2][1][3]).get("end"))
+    if isinstance(x, tuple) and len(x) == 3 and x[0] == "field" and x[2] == "0" and _is(x[1], "slice::split_at") and len(x[1][2]) == 2:
+        return (_close(view(x[1][2][0])), x[1][2][1])
+    return None
+
+
 def _parts(t, shift, out, depth=0):
     """an integer term as a sum of (single-byte view, left shift)"""
     if depth > 20 or not isinstance(t, tuple) or not t:
@@ -174,7 +189,8 @@ def int_decode(t):
             break
         x = inner
     for order, pats in (("be", ("u16::from_be_bytes", "u32::from_be_bytes", "u64::from_be_bytes", "usize::from_be_bytes")),
-                        ("le", ("u16::from_le_bytes", "u32::from_le_bytes", "u64::from_le_bytes", "usize::from_le_bytes"))):
+                        ("le", ("u16::from_le_bytes", "u32::from_le_bytes", "u64::from_le_bytes", "usize::from_le_bytes")),
+                        ("ne", ("u16::from_ne_bytes", "u32::from_ne_bytes", "u64::from_ne_bytes", "usize::from_ne_bytes"))):
         if _is(x, *pats) and len(x[2]) == 1:
             return (order, _close(view(x[2][0])))
     out = []
